@@ -30,4 +30,5 @@ for i in ids:
             print(i, pr, 'exit',r.returncode, len(viol),'violation lines', (viol[0][:200] if viol else ''), flush=True)
     finally:
         shutil.rmtree(wt,ignore_errors=True)
-    json.dump(meta,open(f'{d}/meta.json','w'),indent=1)
+    if not os.environ.get('SEEDRUN_NO_WRITE'):
+        json.dump(meta,open(f'{d}/meta.json','w'),indent=1)
